@@ -95,12 +95,12 @@ class G:
         if self.flag("nfkc_ident"):
             pool = pool + ["µ", "ﬁ"]
         if self.flag("softkw_names"):
-            pool = pool + ["match", "case", "type", "print", "exec", "unixfrom", "fromage", "importer", "classy", "iffy", "not_", "isx", "lambdax", "ordef", "as_", "xin"]
+            pool = pool + ["match", "case", "type", "print", "exec", "unixfrom", "date_from", "_from", "fromage", "importer", "classy", "iffy", "not_", "isx", "lambdax", "ordef", "as_", "xin"]
         return self.c(pool)
 
     def number(self):
         plain = ["0", "1", "42", "7", "1.5", "2.0", "1e10", "1E-3", "3j", "10"]
-        fancy = ["1_000", "0x_FF", "0XdeadBEEF", "0xff", "0o17", "0O7", "0b1_0", "0B11", ".5", "5.", "1_0.0_1e+1_0", ".5J", "1e3j", "0_0", "00", "0xFFFF_FFFF", "1_0j", "1.e5", "0e0"]
+        fancy = ["1_000", "0x_FF", "0XdeadBEEF", "0xff", "0o17", "0O7", "0b1_0", "0B11", ".5", "5.", "1_0.0_1e+1_0", ".5J", "1e3j", ".5e3", ".25E-2j", "7.e-1", "0_0", "00", "0xFFFF_FFFF", "1_0j", "1.e5", "0e0"]
         return self.c(plain + fancy if self.flag("fancy_numbers") else plain)
 
     def string(self, allow_f=True):
